@@ -443,7 +443,6 @@ RECURSIONS = ('missing_rules', '_used_rule_names')
 
 
 def r7_operand_coverage(a, tier):
-    from ..classes import dataclass_fields
     rep = RuleReport(
         'C08.R7',
         'the reference checks see every operand: for every grammar-expression class, the implementation of missing_rules() and '
@@ -453,58 +452,14 @@ def r7_operand_coverage(a, tier):
         'time and surfaces later as a foreign error or a silently failing element',
         floor=40,
     )
-    model = 'tatsu.peg.base.Model'
-    for c in sorted(set(a.ct.subclasses(model)) | {model}):
-        ci = a.p.classes.get(c)
-        if ci is None:
-            continue
-        operands = [f.name for f in dataclass_fields(a.ct, c) if not f.name.startswith('_') and f.annotation
-                    and any(t in f.annotation for t in ('Model', 'Option')) and 'ref' not in f.annotation]
-        if not operands:
-            continue
-        # operands folded into exp by __post_init__
-        folded = set()
-        for q in a.ct.mro(c):
-            k = a.p.classes.get(q)
-            pi = k.methods.get('__post_init__') if k else None
-            if pi is None:
-                continue
-            for n in walk_no_defs(pi.node):
-                if isinstance(n, ast.Assign) and any(norm(t) == 'self.exp' for t in n.targets):
-                    folded |= {x.attr for x in ast.walk(n.value) if isinstance(x, ast.Attribute) and norm(x.value) == 'self'}
-                # an operand that __post_init__ builds FROM exp (BasedRule.rhs = Sequence([base.exp, self.exp])) adds no reference
-                for t in (n.targets if isinstance(n, ast.Assign) else []):
-                    if isinstance(t, ast.Attribute) and norm(t.value) == 'self' and any(
-                            isinstance(x, ast.Attribute) and norm(x) == 'self.exp' for x in ast.walk(n.value)):
-                        folded.add(t.attr)
-        for mname in RECURSIONS:
-            impl = a.ct.lookup(c, mname)
-            if impl is None:
-                continue
-            reads = set()
-            seen = set()
-            cur = impl
-            while cur is not None and cur.qualname not in seen:
-                seen.add(cur.qualname)
-                reads |= {x.attr for x in walk_no_defs(cur.node) if isinstance(x, ast.Attribute) and norm(x.value) == 'self'}
-                nxt = None
-                if any(isinstance(x, ast.Call) and isinstance(x.func, ast.Attribute) and x.func.attr == mname and isinstance(x.func.value, ast.Call)
-                       and dotted(x.func.value.func) == 'super' for x in walk_no_defs(cur.node)) and cur.cls is not None:
-                    mro = a.ct.mro(c)
-                    if cur.cls.qualname in mro:
-                        for q in mro[mro.index(cur.cls.qualname) + 1:]:
-                            k = a.p.classes.get(q)
-                            if k and mname in k.methods:
-                                nxt = k.methods[mname]
-                                break
-                cur = nxt
-            missing = [f for f in operands if f not in reads and not (f in folded and 'exp' in reads)]
-            rep.add({'class': c.split('.')[-1], 'check': mname, 'implemented_in': impl.qualname.rsplit('.', 1)[0].split('.')[-1],
-                     'operands': operands, 'not_visited': missing})
-            for f in missing:
-                rep.fail(c, f'operand:{mname}:{f}', f'{c.split(".")[-1]}.{mname}() is {impl.qualname.rsplit(".", 2)[-2]}.{mname}, which never '
-                         f'looks at the operand `{f}`: a rule that is referenced only in the `{f}` of a {c.split(".")[-1]} is not reported as '
-                         f'missing when the grammar is compiled (and not counted as used)', ci.loc)
+    from ..rules.operands import operand_coverage
+    for c, mname, impl, operands, missing, loc in operand_coverage(a, RECURSIONS):
+        rep.add({'class': c.split('.')[-1], 'check': mname, 'implemented_in': impl.qualname.rsplit('.', 1)[0].split('.')[-1],
+                 'operands': operands, 'not_visited': missing})
+        for f in missing:
+            rep.fail(c, f'operand:{mname}:{f}', f'{c.split(".")[-1]}.{mname}() is {impl.qualname.rsplit(".", 2)[-2]}.{mname}, which never '
+                     f'looks at the operand `{f}`: a rule that is referenced only in the `{f}` of a {c.split(".")[-1]} is not reported as '
+                     f'missing when the grammar is compiled (and not counted as used)', loc)
     return rep
 
 
